@@ -963,6 +963,7 @@ def gen_random_histories(rng, count, alphabet, scope, lmin, lmax):
         (True, "ultra", "none", {"ignore_edge_lengths": True, "ignore_node_ages": True}),
         (True, "ultra", "mixed", {"ignore_edge_lengths": False, "ignore_node_ages": True}),
         (True, "plain", "mixed", {"use_tree_weights": False}), (False, "plain", "mixed", {"use_tree_weights": False}),
+        (True, "tipdated", "none", {"ignore_node_ages": False, "taxon_label_age_map": TIP_AGES}),
     ]
     n = 0
     while n < count:
@@ -1119,9 +1120,11 @@ def t2(ctx):
     combos = [(True, "ultra", "none", {"ignore_edge_lengths": True, "ignore_node_ages": False}),
               (True, "ultra", "none", {"ignore_edge_lengths": True, "ignore_node_ages": True}),
               (True, "ultra", "none", {"ignore_edge_lengths": False, "ignore_node_ages": True}),
-              (True, "plain", "mixed", {"use_tree_weights": False}), (False, "plain", "mixed", {"use_tree_weights": False})]
+              (True, "plain", "mixed", {"use_tree_weights": False}), (False, "plain", "mixed", {"use_tree_weights": False}),
+              # tip-dated collections: what is added to a merged collection (also to a sum a + b) is aged under the operands' settings
+              (True, "tipdated", "none", {"ignore_node_ages": False, "taxon_label_age_map": TIP_AGES})]
     run("settings<=2", "rooted ultrametric pool under the option combinations (ignore_edge_lengths, ignore_node_ages) = (T,F), (T,T), (F,T) "
-        "[(F,F) is in histories<=2], and the weighted pools with use_tree_weights=False: every history of 1-2 operations over the %s alphabet (%d operations); per-split node-age multisets "
+        "[(F,F) is in histories<=2], the weighted pools with use_tree_weights=False, and the tip-dated pool: every history of 1-2 operations over the %s alphabet (%d operations); per-split node-age multisets "
         "and the age summaries on the consensus tree against the per-tree oracle" % ("reduced" if quick else "full", len(la)), True,
         gen_histories(2, la, "settings<=2", combos))
     if not quick:
